@@ -149,13 +149,13 @@ def gen_case(rng, tier):
             ops.append(["only", c, some_ifaces(rng.choice([0, 1, 2]))])
         else:
             ops.append(["impl", c, some_ifaces(rng.choice([1, 1, 2]))])
-    names = [0]
+    names = [rng.choice([-1, 0])]       # pairwise different names; name 0 is the empty string
 
     def reg():
         ar = 1 if rng.random() < 0.8 else 2
         req = [rng.choice(range(0, ni + 1)) for _ in range(ar)]
         names[0] += 1
-        ops.append(["reg", req, rng.choice(range(1, ni + 1)), names[0], names[0]])
+        ops.append(["reg", req, rng.choice(range(1, ni + 1)), names[0], names[0] + 1])
         return [req, names[0]]
 
     regs = [reg() for _ in range(rng.choice([1, 2, 3]))]
@@ -339,6 +339,10 @@ def finding_key(case, obs, mode):
     return "super/%s/%d-classes" % (mode, len(case["classes"]))
 
 
+def _name(n):
+    return "" if n == 0 else "n%d" % n
+
+
 def replay_text(case, obs, mode):
     L = ["# PURE_PYTHON=%s" % ("1" if mode == "py" else "0"),
          "from zope.interface import (Interface, implementedBy, providedBy, directlyProvides,",
@@ -374,13 +378,13 @@ def replay_text(case, obs, mode):
         elif k == "implby":
             L.append("print(show(implementedBy(%s)))   # observed %s" % (arg(op[1]), a))
         elif k == "reg":
-            L.append("registry.register([%s], I[%d], 'n%d', factory(%d))" % (
-                ", ".join("I[%d]" % i for i in op[1]), op[2], op[3], op[4]))
+            L.append("registry.register([%s], I[%d], %r, factory(%d))" % (
+                ", ".join("I[%d]" % i for i in op[1]), op[2], _name(op[3]), op[4]))
         elif k == "adapt":
             args = [arg(x) for x in op[2]]
-            call = {"qa": "registry.queryAdapter(%s, I[%d], 'n%d')" % (args[0], op[3], op[4]),
-                    "hook": "registry.adapter_hook(I[%d], %s, 'n%d')" % (op[3], args[0], op[4]),
-                    "multi": "registry.queryMultiAdapter([%s], I[%d], 'n%d')" % (", ".join(args), op[3], op[4])}[op[1]]
+            call = {"qa": "registry.queryAdapter(%s, I[%d], %r)" % (args[0], op[3], _name(op[4])),
+                    "hook": "registry.adapter_hook(I[%d], %s, %r)" % (op[3], args[0], _name(op[4])),
+                    "multi": "registry.queryMultiAdapter([%s], I[%d], %r)" % (", ".join(args), op[3], _name(op[4]))}[op[1]]
             L.append("print(%s)   # observed %s  ([2] = default, [3, vid*1000 + object digits], 9 = proxy passed)" % (call, a))
     L.append("# expected: providedBy(super(C, ob)) = union of implementedBy(c).flattened() for c strictly after C "
              "in type(ob).__mro__; factories receive ob itself")
